@@ -259,6 +259,19 @@ def request_battery(ck):
                 ck.violation("login-without-valid-credentials", "login request %s/%s was answered success (valid credentials: %s, sessions before: %d of %d)"
                              % (u, p_, valid, before, maxrem), dict(ctx))
                 break
+        # a command through a held connection whose target no longer answers (server powered off): still one of the four answers
+        from primaite.interface.request import RequestResponse
+        b.sreq(["shutdown"])
+        try:
+            r0 = creq(["service", "terminal", "send_remote_command", sip, {"command": ["file_system", "create", "folder", "late"]}])
+        except Exception as e:
+            r0 = e
+        ck.evaluations += 1
+        ck.case(canon=("command-to-silent-target", maxrem), nontrivial=True)
+        if not isinstance(r0, RequestResponse) or r0.status not in ("success", "failure", "unreachable", "pending") or r0.status == "success":
+            ck.violation("remote-command-to-silent-target-not-answered-properly", "send_remote_command through a held connection to a server that was powered off was answered %r"
+                         % (r0,), dict(ctx))
+        b.sreq(["startup"])
         # reverse direction: the server, which granted the session, tries to command the client, which granted none
         r = b.sreq(["service", "terminal", "send_remote_command", cip, {"command": ["file_system", "create", "folder", "reverse"]}])
         ck.evaluations += 1
